@@ -2811,6 +2811,16 @@ class ChannelManager:
 
         # Process the response
         channel.on_connection_response(response)
+        if (
+            isinstance(channel, LeCreditBasedChannel)
+            and channel.state == LeCreditBasedChannel.State.CONNECTED
+        ):
+            # Remember the channel by destination CID too, right away: credits may
+            # follow the response immediately
+            le_connection_channels = self.le_coc_channels.setdefault(
+                connection.handle, {}
+            )
+            le_connection_channels[channel.destination_cid] = channel
 
     def on_l2cap_credit_based_connection_request(
         self,
@@ -2947,6 +2957,13 @@ class ChannelManager:
             response.result
             == L2CAP_Credit_Based_Connection_Response.Result.ALL_CONNECTIONS_SUCCESSFUL
         ):
+            # Remember the channels by destination CID too, right away: credits may
+            # follow the response immediately
+            le_connection_channels = self.le_coc_channels.setdefault(
+                connection.handle, {}
+            )
+            for channel in channels:
+                le_connection_channels[channel.destination_cid] = channel
             connection_result.set_result(None)
         else:
             connection_result.set_exception(
@@ -3015,10 +3032,6 @@ class ChannelManager:
             logger.exception('connection failed')
             del connection_channels[source_cid]
             raise
-
-        # Remember the channel by source CID and destination CID
-        le_connection_channels = self.le_coc_channels.setdefault(connection.handle, {})
-        le_connection_channels[channel.destination_cid] = channel
 
         return channel
 
@@ -3126,11 +3139,6 @@ class ChannelManager:
                 del connection_channels[cid]
             pending_connections.pop(identifier, None)
             raise
-
-        # Remember the channel by source CID and destination CID
-        le_connection_channels = self.le_coc_channels.setdefault(connection.handle, {})
-        for channel in channels:
-            le_connection_channels[channel.destination_cid] = channel
 
         return channels
 
